@@ -96,6 +96,11 @@ def p_provenance(ts, rng):
     return t.tree_sequence(), "provenance+time_units+refseq"
 
 
+def _placement(ts):
+    """(position, node) of every mutation, in table order"""
+    return list(zip(ts.sites_position[ts.mutations_site].tolist(), ts.mutations_node.tolist()))
+
+
 def p_monomorphic(ts, rng):
     t = ts.dump_tables()
     used = set(t.sites.position.tolist())
@@ -112,7 +117,10 @@ def p_monomorphic(ts, rng):
         return None, "monomorphic"
     t.sort()
     t.build_index()
-    return t.tree_sequence(), f"monomorphic(+{added})"
+    ts2 = t.tree_sequence()
+    if _placement(ts2) != _placement(ts):      # sort() re-ordered the mutations of a site: not a pure site insertion
+        return None, "monomorphic"
+    return ts2, f"monomorphic(+{added})"
 
 
 def p_mutation_times(ts, rng):
@@ -120,10 +128,13 @@ def p_mutation_times(ts, rng):
     t = ts.dump_tables()
     mt = t.mutations.time
     if np.all(np.isnan(mt)):
-        t.compute_mutation_times()
+        t.compute_mutation_times()      # may re-sort the mutations of a site (then it is not a pure change of times)
     else:
         t.mutations.time = np.full_like(mt, tskit.UNKNOWN_TIME)
-    return t.tree_sequence(), "mutation_times"
+    ts2 = t.tree_sequence()
+    if _placement(ts2) != _placement(ts):
+        return None, "mutation_times"
+    return ts2, "mutation_times"
 
 
 def p_individuals(ts, rng):
@@ -199,7 +210,7 @@ def observe(ts_out, fit, method):
     pos = ts_out.sites_position[ts_out.mutations_site]
     obs["mutations_time"] = Counter((f2h(p), int(n), f2h(tm)) for p, n, tm in zip(pos, ts_out.mutations_node, ts_out.mutations_time))
     t = ts_out.tables
-    if t.nodes.metadata_schema.schema is not None:
+    if method != "maximization" and t.nodes.metadata_schema.schema is not None:   # maximization passes input metadata through
         md = [n.metadata for n in ts_out.nodes()]
         if all(isinstance(d, dict) and "mn" in d for d in md):
             obs["node_mnvr"] = [(f2h(d["mn"]), f2h(d["vr"])) for d in md]
